@@ -156,6 +156,7 @@ def rule_a(ck, u):
 
 
 def run(ck):
+    ck.rule('C13.g', 'the endpoint calls the framing rests on (sink_put_chunk, source_get_chunk, their adaptors, sts_n / sts_cbc) keep their transfer-position and retry discipline (C17.a-d, C17.f re-evaluated): a frame\'s octets are exactly the designated ones also when the driver interrupts')
     ck.rule('C13.a', 'kind table: per LengthPrefixKind the size, union member, parse/generate pair (width, endianness; C15-proved codecs) and maximum 2^(8*size)-1 agree; size switches dispatch to the matching member; scratch arrays hold the largest prefix')
     ck.rule('C13.b', 'region discipline of the ByteBuffer entry points: payload read = (data+offset, unread count or n <= unread) advancing offset by n; decoder writes at data+used bounded by size-used advancing used by the decoded length')
     ck.rule('C13.c', 'chunk lists: prefix = sum of unread counts over [active, chunks); each emitted chunk is its unread region; zero-length chunks are never handed to sink_put_chunk (which refuses 0)')
@@ -706,3 +707,7 @@ def run(ck):
             bad = 'no transfer path'
         ck.verdict(bad is None, 'C13.e', fn, cast.where(u.fn(fn)),
                    'prefix failure returned unchanged; otherwise exactly the decoded length is moved with sts_n and its result returned' if bad is None else bad)
+    from .common import reevaluate
+    reevaluate(ck, 'C13.g', 'c17', lambda r, k: (r in ('C17.a', 'C17.b', 'C17.c', 'C17.d') and k.startswith(('sink_put_chunk', 'source_get_chunk', 'sink_adapt', 'source_adapt'))) or
+               (r == 'C17.f' and k.startswith(('sts_n', 'sts_cbc', 'sts_atmost'))),
+               'frames are emitted through sink_put_chunk and decoded through source_get_chunk / sts_n: the exact transfer calls move exactly the designated octets whatever the driver answers')
